@@ -445,14 +445,14 @@ CLAIMS["C06"]["text"] = CLAIMS["C06"]["text"] + (
     "current source on every run, is proved to refine one Eng.poll race of the model (TieRaceV.poll_tie: no panic, same outcome, same "
     "offset / done flag, same scripts, handed wakers and event trace; hypotheses: at least one child, Indexer.max = number of "
     "children, children answer like futures without panicking, not yet done), and Indexer::iter yields the rotated order Fix.rot. "
-    "The array and tuple variants remain tied differentially.")
+    "The tuple variant remains tied differentially.")
 
 def _fam(fn, thm, what):
     return (" Static tie of the poll function (" + thm + "): " + fn + ", translated from the current source on every run "
             "(tools/rs2lean.py -> lean/FcGen/KSrcFam*.lean), is proved to refine the model's Eng.poll / Eng.drop of that family - "
             + what + " Hypotheses: the combinator is well-formed (counters match the state table, buffers sized to the number of "
             "children), handed sub-wakers lie below the length, children answer like futures / streams without panicking, not yet "
-            "completed. The array and tuple containers remain tied differentially.")
+            "completed. The tuple containers remain tied differentially.")
 CLAIMS["C04"]["text"] += _fam("Join::poll and the PinnedDrop destructor of Vec<Fut>::join() (src/future/join/vec.rs)", "FcProps/KTieJoinV.lean: TieJoinV.poll_tie, drop_tie, new_wf",
     "no panic, same outcome (the output vector on completion), same readiness set / states / output slots / pending counter, same scripts, handed wakers and event trace; the completing poll is compared through doneAgree (the crate moves the outputs out, the model keeps its copy).")
 CLAIMS["C02"]["text"] += " Static ties of destructors: TieJoinV.drop_tie, TieTryJoinV.drop_tie / drop_failed_tie, TieZipV.drop_tie (FcProps/KTie{JoinV,TryJoinV,ZipV}.lean): the translated PinnedDrop of the Vec join / try_join / zip emits exactly the model's drop events (outputs or buffered items released once, pending children dropped once)."
@@ -466,3 +466,36 @@ CLAIMS["C09"]["text"] += _fam("Zip::poll_next and the PinnedDrop destructor of V
     "row buffer, all-ready test, re-arming of every slot after a row, end on the first None, buffered items of the unfinished row released by the destructor.")
 CLAIMS["C10"]["text"] += _fam("Chain::poll_next of Vec<S>::chain() (src/stream/chain/vec.rs)", "FcProps/KTieChainV.lean: TieChainV.poll_tie",
     "the Rust loop over the current input (index advanced only when an input ends), direct strategy.")
+
+# ---- session 4: the ARRAY containers, race_ok (array), wait_until
+def _arr(fn, thm):
+    return (" The same tie is proved for the ARRAY container (" + thm + "): " + fn + ", translated from the current source on every run "
+            "(lean/FcGen/KSrcArr*.lean; the const generic N is a parameter of every translated function, the readiness set is "
+            "ReadinessArray<N> read through TieArr.abs, WakerArray<N> is a small hand model), with the well-formedness predicate "
+            "parameterised by N (kids.len = N).")
+CLAIMS["C04"]["text"] += _arr("Join::poll / PinnedDrop of [Fut; N]::join() (src/future/join/array.rs)", "FcProps/KTieJoinA.lean: TieJoinA.poll_tie, drop_tie, new_wf")
+CLAIMS["C02"]["text"] += " Array counterparts: TieJoinA.drop_tie, TieTryJoinA.drop_tie / drop_failed_tie, TieZipA.drop_tie, TieRaceOkA.drop_tie / drop_failed_tie (stored errors of race_ok released once)."
+CLAIMS["C05"]["text"] += _arr("TryJoin::poll / PinnedDrop of [Fut; N]::try_join() (src/future/try_join/array.rs)", "FcProps/KTieTryJoinA.lean: TieTryJoinA.poll_tie, drop_tie, drop_failed_tie, new_wf")
+CLAIMS["C06"]["text"] += _arr("Race::poll of [Fut; N]::race() (src/future/race/array.rs)", "FcProps/KTieRaceA.lean: TieRaceA.poll_tie")
+CLAIMS["C08"]["text"] += _arr("Merge::poll_next of [S; N]::merge() (src/stream/merge/array.rs)", "FcProps/KTieMergeA.lean: TieMergeA.poll_tie, poll_tie_strong, new_wf")
+CLAIMS["C17"]["text"] += _arr("Merge::poll_next of [S; N]::merge() (src/stream/merge/array.rs)", "FcProps/KTieMergeA.lean")
+CLAIMS["C09"]["text"] += _arr("Zip::poll_next / PinnedDrop of [S; N]::zip() (src/stream/zip/array.rs)", "FcProps/KTieZipA.lean: TieZipA.poll_tie, drop_tie, new_wf")
+CLAIMS["C10"]["text"] += _arr("Chain::poll_next of [S; N]::chain() (src/stream/chain/array.rs)", "FcProps/KTieChainA.lean: TieChainA.poll_tie")
+CLAIMS["C07"]["text"] += (
+    " Static tie (FcProps/KTieRaceOkA.lean): RaceOk::poll and the PinnedDrop destructor of [Fut; N]::race_ok() "
+    "(src/future/race_ok/array/mod.rs), translated from the current source on every run (lean/FcGen/KSrcArr7.lean; the "
+    "three-way zip of children / error slots / states is read position by position), are proved to refine Eng.poll / Eng.drop "
+    "of the policy raceOk false false: TieRaceOkA.poll_tie (no panic; same outcome - Ok of the first success in that same "
+    "poll, the aggregate by position in the poll in which the last child fails, also for N = 0; same states, stored errors "
+    "and counter; same scripts, handed wakers and event trace), drop_tie (the stored errors are released exactly once), "
+    "drop_failed_tie (after the aggregate was returned nothing but the children is released). Hypotheses: slots Ready exactly "
+    "where an error is stored, the counter counts them, children answer like futures without panicking, not completed. "
+    "The Vec (MaybeDone) and tuple variants remain tied differentially.")
+CLAIMS["C19"]["text"] += (
+    " Static tie (FcProps/KTieWait.lean): WaitUntil::poll (src/future/wait_until.rs: the loop over the State enum with ready!) and "
+    "WaitUntil::poll_next (src/stream/wait_until.rs), translated from the current source on every run (lean/FcGen/KSrcWait.lean), are "
+    "proved to refine Eng.poll waitUntilF / waitUntilS: TieWaitF.poll_tie, poll_completed (polling a completed future panics), "
+    "TieWaitS.poll_tie - the inner future / stream is not polled before the deadline has resolved, is polled in the same poll in "
+    "which it resolves, the deadline is not polled again afterwards, same outcome, scripts, handed wakers and event trace, "
+    "including the point where the deadline's output is dropped (the translator's rule for temporaries, trusted). Hypotheses: "
+    "deadline = child 0, inner = child 1, children answer like a future / a stream without panicking, not completed.")
